@@ -356,6 +356,34 @@ func genCacheFacts(out string, root *pkgFiles) {
 		return true
 	})
 	rep.Facts["cache.hitCondition"] = cond
+	// every successful return: either the recognised hit (cached.frontMatter, cached.dom) or what THIS call read and parsed
+	succ, hitRet, freshRet := 0, 0, 0
+	defs := map[string]string{}
+	ast.Inspect(fd.Body, func(n ast.Node) bool {
+		switch x := n.(type) {
+		case *ast.AssignStmt:
+			if x.Tok == token.DEFINE && len(x.Rhs) == 1 {
+				if ce, ok := x.Rhs[0].(*ast.CallExpr); ok {
+					for _, l := range x.Lhs {
+						defs[exprString(l)] = exprString(ce.Fun)
+					}
+				}
+			}
+		case *ast.ReturnStmt:
+			if len(x.Results) == 3 && exprString(x.Results[2]) == "nil" {
+				succ++
+				a, b := exprString(x.Results[0]), exprString(x.Results[1])
+				if a == "cached.frontMatter" && b == "cached.dom" {
+					hitRet++
+				} else if defs[a] == "v.loader.loadFragment" && defs[b] == "parser.ParseTemplateBytes" {
+					freshRet++
+				}
+			}
+		}
+		return true
+	})
+	fmt.Fprintf(&sb, "/-- successful returns of loadCachedWithFrontMatter: all of them, those answering from the entry under the hit condition, and those\n    returning what this very call read (loadFragment) and parsed (ParseTemplateBytes) -/\ndef cacheReturns : Nat × Nat × Nat := (%d, %d, %d)\n", succ, hitRet, freshRet)
+	rep.Facts["cache.returns"] = fmt.Sprintf("success=%d hit=%d fresh=%d", succ, hitRet, freshRet)
 	switch cond {
 	case "(ok)&&((currentModTime.IsZero())||(cached.modTime.Equal(currentModTime)))":
 		sb.WriteString("def cacheStatFailureIsMiss : Bool := false\n")
